@@ -292,6 +292,22 @@ func (r *yieldRewriter) rewriteStmt(
 
 	// rewritten in pass1
 	// case *ast.RangeStmt:
+	case *ast.RangeStmt:
+		// range over pointer to array / func / type parameter is left as it is by pass1:
+		// ↓↓ trival branch ↓↓, but its body is not walked by the rewriter,
+		// a defer inside would run when the generated callback returns
+		r.assert(r.mustNoYield(stmt), stmt, "yield not supported in %T", stmt)
+		ast.Inspect(stmt.Body, func(n ast.Node) bool {
+			switch n := n.(type) {
+			case *ast.FuncLit:
+				return false
+			case *ast.DeferStmt:
+				r.assert(false, n, "%T implement me", n)
+			}
+			return true
+		})
+		children.push(stmt, kindTrival)
+		return children
 
 	case *ast.SelectStmt, *ast.CommClause,
 		*ast.LabeledStmt, *ast.CaseClause,
